@@ -40,6 +40,11 @@ class Ctx:
         return any(k["slug"] == slug and k["status"] == "known" for k in load_known(self.pid))
 
 
+# modules whose branch coverage guides the 'fuzz*' parts (pure Python; the C extension is not instrumented)
+FUZZ_MODULES = {"C11": ["cvxopt.modeling"], "C12": ["cvxopt.modeling"], "C13": ["cvxopt.modeling"],
+                "C14": ["cvxopt.modeling"]}
+
+
 def hash_part(s):
     h = 0
     for ch in s:
@@ -65,6 +70,10 @@ def main():
     from vlib.harness import Stats, Violation
     R = REGISTRY[a.pid]
     # make sure the overlay (not the wheel) is what we test
+    if a.mode == "search" and (a.part or "").startswith("fuzz"):
+        # coverage-guided parts: the pure-Python layers are imported under atheris' instrumentation first
+        from vlib.harness import instrument_for_fuzz
+        instrument_for_fuzz(FUZZ_MODULES.get(a.pid, ["cvxopt.modeling"]))
     import cvxopt
     ov = os.environ.get("VERIF_OVERLAY")
     if ov and not os.path.abspath(cvxopt.__file__).startswith(os.path.abspath(ov)):
